@@ -77,8 +77,10 @@ def _try(f, *a):
 
 
 class Rig:
-    def __init__(self, bid: str, declarer: str, deal: Dict[str, frozenset], c: Counter, vul: str = 'None', dbl: int = 0, observers: bool = True):
+    def __init__(self, bid: str, declarer: str, deal: Dict[str, frozenset], c: Counter, vul: str = 'None', dbl: int = 0, observers: bool = True,
+                 playable: bool = True, do_faults: bool = True):
         self.bid, self.declarer_s, self.deal, self.c = bid, declarer, {s: frozenset(deal[s]) for s in SEATS}, c
+        self.playable, self.do_faults = playable, do_faults
         self.contract = adapt.mk_contract(bid, dbl, vul, declarer)
         self.full = PlayingPhaseWithHands(self.contract, adapt.hands_obj(deal))
         self.obs: Dict[str, ObservedPlayingPhase] = {}
@@ -170,11 +172,11 @@ class Rig:
             c.violate('C05:not-empty', f'{self.where()}: hands are not empty after every card was played', self.rp())
         # C06: the playable set of every seat (not only the one on turn)
         led = ref.led()
-        for s in SEATS:
+        for s in (SEATS if self.playable else ()):
             exp = RP.playable(self.hands[s], led)
             r = _try(f.current_available_cards_in_hand, PL[s])
             self._cmp_avail(r, exp, self.hands[s], f'all-hands:{"lead" if led is None else "follow"}', f'seat {s}')
-        if deep and not done:
+        if deep and not done and self.playable:
             s = ref.active
             r = _try(f.current_available_cards, {CARDS[x] for x in self.hands[s]})
             self._cmp_avail(r, RP.playable(self.hands[s], led), self.hands[s], f'current:{"lead" if led is None else "follow"}', f'hand of {s}')
@@ -190,15 +192,17 @@ class Rig:
             own = frozenset(CI[x] for x in o.hand)
             if own != frozenset(self.hands[s]):
                 c.violate('C05:observer-own-hand', f'{self.where()}: observer {s}: own hand {sorted(own)} != {sorted(self.hands[s])}', self.rp())
-            r = _try(o.current_available_cards_in_hand)
-            self._cmp_avail(r, RP.playable(self.hands[s], led), self.hands[s], f'observer-own:{"lead" if led is None else "follow"}', f'observer {s} own hand')
+            if self.playable:
+                r = _try(o.current_available_cards_in_hand)
+                self._cmp_avail(r, RP.playable(self.hands[s], led), self.hands[s], f'observer-own:{"lead" if led is None else "follow"}', f'observer {s} own hand')
             if s != dm:
                 if self.dummy_open:
                     dh = o.dummy_hand
                     if dh is None or frozenset(CI[x] for x in dh) != frozenset(self.hands[dm]):
                         c.violate('C05:observer-dummy-hand', f'{self.where()}: observer {s}: dummy\'s hand differs from dummy\'s remaining cards', self.rp())
-                    r = _try(o.current_available_cards_in_dummy_hand)
-                    self._cmp_avail(r, RP.playable(self.hands[dm], led), self.hands[dm], f'observer-dummy:{"lead" if led is None else "follow"}', f'observer {s} dummy hand')
+                    if self.playable:
+                        r = _try(o.current_available_cards_in_dummy_hand)
+                        self._cmp_avail(r, RP.playable(self.hands[dm], led), self.hands[dm], f'observer-dummy:{"lead" if led is None else "follow"}', f'observer {s} dummy hand')
                 elif o.dummy_hand is not None:
                     c.violate('C11:dummy-early', f'{self.where()}: observer {s} knows dummy before the opening lead', self.rp())
 
@@ -219,6 +223,8 @@ class Rig:
 
     # ---- faults: every refused play must raise and change nothing (C05)
     def faults(self):
+        if not self.do_faults:
+            return
         c, f, ref = self.c, self.full, self.ref
         active = ref.active if not ref.done() else None
         engines = [('table', f)] + [(f'observer-{s}', o) for s, o in self.obs.items() if s not in self.dead_obs]
@@ -286,11 +292,18 @@ def default_card(hands, seat, led) -> int:
     return min(RP.playable(hands[seat], led))
 
 
+OPTS = {'observers': True, 'playable': True, 'do_faults': True}        # set per property by the caller (module-level: work units run in forked workers)
+
+
+def set_opts(**kw):
+    OPTS.update(kw)
+
+
 def run_playout(bid, declarer, deal, departures: Dict[int, int], c: Counter, fault_from: Optional[int] = 0, observers=True,
                 fault_span: int = 99, chooser=None) -> Optional[Rig]:
     """Default line = lowest legal card; departures[k] = index (into the sorted remaining hand, default card removed) of the card
     played instead at position k.  Oracles after every play; faults injected at positions fault_from..fault_from+fault_span."""
-    rig = Rig(bid, declarer, deal, c, observers=observers)
+    rig = Rig(bid, declarer, deal, c, observers=observers and OPTS['observers'], playable=OPTS['playable'], do_faults=OPTS['do_faults'])
     total = sum(len(v) for v in deal.values())
     try:
         rig.check()
